@@ -18,6 +18,11 @@ def gen_inputs(rnd, n):
     out = []
     for prof in corpus.PARSE_ERROR_PROFILES + corpus.GEN_ERROR_PROFILES + corpus.REGO_ERROR_PROFILES + corpus.NON_OBJECT_RESULT_PROFILES + corpus.EMPTY_SHAPE_PROFILES:
         out.append((prof, rnd.choice(corpus.OK_DOCS), "unknown"))
+    # a profile whose evaluation fails at run time, and one with 70 quantified constraints, against every kind of document
+    for prof in (corpus.EVAL_ERROR_PROFILE, corpus.MANY_QUANTIFIED_PROFILE):
+        for d in corpus.OK_DOCS + corpus.NO_NODES_DOCS[:2] + corpus.NOT_JSON_DOCS[:2]:
+            for _ in range(3):          # three times: the entry point and the channel mode rotate with the case index
+                out.append((prof, d, "unknown"))
     for d in corpus.NO_NODES_DOCS + corpus.NOT_JSON_DOCS + corpus.LD_REJECT_DOCS:
         out.append((rnd.choice([corpus.OK_PROFILE, corpus.OK_PROFILE_NESTED]), d, "ok"))
     while len(out) < n:
